@@ -8,7 +8,7 @@ use crate::{for_both, Ctx};
 use blsful::*;
 use serde_json::json;
 
-pub const RULE: &str = "keys = edge scalars E + random pool (12 quick / 100 thorough), both groups. Per key: proof_of_possession twice (determinism), verify against own key (library and reference PopVerify), byte equality with reference PopProve; every ORDERED pair of distinct keys in the pool: proof of i against key j must fail (library and reference); every negative question is asked three times in a row, directly after an accepted one (an acceptance on any attempt counts); perturbations of the proof point: +G, negation, doubling, P+pop(other), a plain signature (each scheme) over the public-key bytes, re-encoded (must still pass). History clusters (3 quick / 48 thorough per group, shared with C01/C03): prove and verify possession (own key, another key) next to signing and verifying under every scheme and both group assignments, every ordered pair (a,b) as a,b,b,a with the reference's answers. Distinct by (suite, kind, pk, proof); non-trivial = both points decode and the pairing equation decides.";
+pub const RULE: &str = "keys = edge scalars E + magnitude boundaries (2^32, 2^64-1, 2^64, 2^248, 0x73*2^248 quick; 2^k-1, 2^k, 2^k+1 thorough) + random pool (12 quick / 100 thorough), both groups. Per key: proof_of_possession twice (determinism), verify against own key (library and reference PopVerify), byte equality with reference PopProve; every ORDERED pair of distinct keys in the pool: proof of i against key j must fail (library and reference); every negative question is asked three times in a row, directly after an accepted one (an acceptance on any attempt counts); perturbations of the proof point: +G, negation, doubling, P+pop(other), a plain signature (each scheme) over the public-key bytes, re-encoded (must still pass). History clusters (3 quick / 48 thorough per group, shared with C01/C03): prove and verify possession (own key, another key) next to signing and verifying under every scheme and both group assignments, every ordered pair (a,b) as a,b,b,a with the reference's answers. Distinct by (suite, kind, pk, proof); non-trivial = both points decode and the pairing equation decides.";
 
 pub fn run(ctx: &mut Ctx) {
     for_both!(run_suite, ctx);
@@ -23,6 +23,15 @@ fn run_suite<C: Suite>(ctx: &mut Ctx) {
         .into_iter()
         .map(|(a, b)| (a.to_string(), b))
         .collect();
+    {
+        let mags = gen::magnitude_scalars();
+        let quick = ["2^32", "u64::MAX", "2^64", "2^248", "0x73*2^248"];
+        for (name, k) in mags {
+            if ctx.tier == crate::Tier::Thorough || quick.contains(&name.as_str()) {
+                pool.push((format!("magnitude {name}"), k));
+            }
+        }
+    }
     let extra = ctx.tier.pick(2, 90);
     for _ in 0..extra {
         pool.push(("random".into(), gen::random_scalar(&mut erng)));
